@@ -549,7 +549,7 @@ func genSpecial(r *mon.Rand, s *Sub, i int) {
 		w.Out = append(w.Out, v)
 		w.Class = append(w.Class, class)
 	}
-	if (i/20)%3 == 0 {
+	if (i/20)%4 == 0 {
 		s.Shape, s.Spelling, s.PathClass = "mixed-from-import", "from-mixed", "valid-nested"
 		s.Files = map[string]string{
 			"pkg.risor":     "tick(\"pkg\")\ncnt := 0\nval := 77\nfunc helper() { cnt++; return 1000 + cnt }\nfunc other() { return 2000 }\n",
@@ -636,7 +636,7 @@ func genSpecial(r *mon.Rand, s *Sub, i int) {
 		for t := range ticks {
 			w.Ticks = append(w.Ticks, t)
 		}
-	} else if (i/20)%3 == 1 {
+	} else if (i/20)%4 == 1 {
 		// the importing code re-binds names of host globals (a builtin function, a builtin module) before the
 		// module is loaded for the first time: the re-binding is the importer's own variable, the module keeps
 		// seeing the host's
@@ -672,6 +672,47 @@ func genSpecial(r *mon.Rand, s *Sub, i int) {
 			obs("measure.size(\"abcde\")", 5, "globals")
 			obs("len(\"\")", 41, "globals")
 			w.Ticks = []string{"quiet", "measure"}
+		}
+	} else if (i/20)%4 == 3 {
+		// a module that fails after it has imported (and used) a dependency; the failure is caught around the
+		// outermost import: the dependency completed, so it keeps its state and does not run again
+		s.Shape, s.Spelling, s.PathClass = "failed-import-keeps-dependencies", "import", "valid-flat"
+		s.Files = map[string]string{
+			"dep.risor":  "tick(\"dep\")\ncnt := 0\nfunc inc() { cnt++; return cnt }\n",
+			"dep2.risor": "tick(\"dep2\")\nimport dep\nbase := dep.inc()\nfunc peek() { return base * 100 + dep.inc() }\n",
+			"bad.risor":  "tick(\"bad\")\nimport dep\ndep.inc()\ndep.inc()\nerror(\"boom\")\n",
+			"bad2.risor": "tick(\"bad2\")\nimport dep2\nimport dep\ndep.inc()\n[1][5]\n",
+		}
+		catch := "func(e) { return -1 }"
+		switch r.Intn(4) {
+		case 0:
+			lines = append(lines, "status := try(func() { import bad; return 1 }, "+catch+")")
+			obs("status", -1, "state")
+			lines = append(lines, "import dep")
+			obs("dep.inc()", 3, "state")
+			w.Ticks = []string{"bad", "dep"}
+		case 1:
+			lines = append(lines, "import dep")
+			obs("dep.inc()", 1, "state")
+			lines = append(lines, "status := try(func() { import bad; return 1 }, "+catch+")")
+			obs("status", -1, "state")
+			obs("dep.inc()", 4, "state")
+			w.Ticks = []string{"bad", "dep"}
+		case 2:
+			lines = append(lines, "status := try(func() { import bad2; return 1 }, "+catch+")")
+			obs("status", -1, "state")
+			lines = append(lines, "import dep2", "import dep as d")
+			obs("dep2.base", 1, "state")
+			obs("d.inc()", 3, "state")
+			obs("dep2.peek()", 104, "state")
+			w.Ticks = []string{"bad2", "dep2", "dep"}
+		default:
+			lines = append(lines, "status := try(func() { import bad; return 1 }, "+catch+")", "second := try(func() { import bad2; return 1 }, "+catch+")")
+			obs("status", -1, "state")
+			obs("second", -1, "state")
+			lines = append(lines, "import dep2")
+			obs("dep2.peek()", 305, "state")
+			w.Ticks = []string{"bad", "bad2", "dep2", "dep"}
 		}
 	} else {
 		s.Shape, s.Spelling, s.PathClass = "case-pair", "import-str-as", "valid-nested"
